@@ -9,6 +9,11 @@ import (
 
 var sideMaps = map[*value]*hashmap{}
 
+var curSummaryFn *ssa.Function
+
+func frFn(fr *frame, name string) *ssa.Function { return curSummaryFn }
+
+
 func zeroResults(fn *ssa.Function) value {
 	res := fn.Signature.Results()
 	switch res.Len() {
@@ -34,6 +39,7 @@ func sideMap(p *value, kt types.Type) *hashmap {
 }
 
 func summary(fr *frame, fn *ssa.Function, name string, args []value) (value, bool) {
+	curSummaryFn = fn
 	if v, ok := timeSummary(fr, name, args); ok {
 		return v, true
 	}
